@@ -64,6 +64,9 @@ FIXED = [
  "fixed: property=C10 56354b4 (was known finding F09) a 2x nearest-neighbour upscaling operation at the end of a cascade was striped with odd stripe heights: later stripes start on an odd OFM row (the hardware pairs rows from the stripe start, wrong rows are replicated) and the last IFM row of a stripe lies outside its IFM box (fetched through an unused tile base: undefined bytes, accesses outside the extent, DMA/kernel conflicts) (findings/FX-F09-odd-stripe-nearest-upscale.C03.json, .C04-dma.json, FX-F09-odd-final-stripe-nearest-upscale.C01.json)",
  "fixed: property=C03 2d50067 LEAKY_RELU lowered to elementwise operations (int16, or alpha outside (0,1)) in front of a bypassed RESHAPE: new operations and intermediate tensors took the reshaped shape of the OFM tensor (same class as 92fd28e) (findings/FX-leaky-relu-behind-bypassed-reshape.C03.json)",
  "fixed: property=C03 c32b0f9 TRANSPOSE ; lookup-table activation (HARD_SWISH, ...) ; consumer: the activation fused into the transposing pool replaced its output tensor, the linear-format / full-buffer requirement was lost, the column-wise written OFM went through a cascade rolling buffer and the consumer read undefined bytes (findings/FX-transpose-fused-activation-cascaded.C03.json)",
+ "fixed: property=C11 449d738 ARG_MAX on the NPU appended a unit dimension to the shape of its output tensor: a network output [1,H,W] was published as [1,H,W,1] (findings/FX-argmax-output-rank.C11.json)",
+ "fixed: property=C03 ce780e7 SQUARED_DIFFERENCE whose first operand is the smaller (broadcast) one, e.g. a constant 1x1xWxC: int32 intermediates cloned from that operand were allocated too small and overlapped live tensors (findings/FX-squared-difference-broadcast-const.C03.json)",
+ "fixed: property=C13 3a3b97c LOG / SQRT (int8 and int16 lookup tables) with a zero point that makes some dequantised input negative aborted with ValueError: math domain error (findings/FX-sqrt-table-domain-error.C13.json)",
 ]
 EXTRA = [
  dict(id="F07-pad-then-mean", property="C13", status="known",
